@@ -9,8 +9,15 @@
 //!   mt   case = ( k workers ( ( id delay_us kind dur_ms cancel_us ) ... ) )   multi-threaded tokio runtime,
 //!        one task per request, scripted cancellations; afterwards a saturating burst.
 //!        prints ( k ( ev ... ) avail burst_granted extra_early extra_late avail_end max_children stuck orphaned )
+//!   env  case = ( ncpus ( none|fifo|fds|garbage arg ) burst discard )   the real `Client::new()` (what the server
+//!        calls) in a process pinned to ncpus CPUs whose environment carries a make jobserver of that shape
+//!        prints ( limited pool granted_at_once empty_acquireds )
+//! request kinds: 0 bare acquire; 1/2 AsyncCommand::spawn + Child::wait, exit 0 / 3; 3 unspawnable;
+//!   4..8 util::run_input_output: 4/5 exits 0 / 1 while a grandchild keeps its stdout+stderr, 6 writes 300 kB to
+//!   both pipes, 7 is fed 300 kB it never reads, 8 kills itself.
 use sccache::verif_hooks::jobserver::{verif_trace, Acquired, Client};
 use sccache::verif_hooks::mock_command::{AsyncCommand, CommandChild, RunCommand};
+use sccache::util::run_input_output;
 use std::cell::Cell;
 use std::collections::{HashMap, VecDeque};
 use std::future::Future;
@@ -29,6 +36,7 @@ enum Phase {
     Slot,
     Held,
     Running,
+    Draining,
     Orphan,
     Done,
 }
@@ -45,6 +53,7 @@ enum Ev {
     SpawnFail(u64),
     Exit(u64, Option<bool>),
     DropRunning(u64),
+    Done(u64),
     Other(&'static str),
 }
 
@@ -65,10 +74,17 @@ impl Ev {
                 Sx::n(*r),
                 match ok {
                     Some(b) => Sx::bool(*b),
-                    None => Sx::n(2u32),
+                    // not reported by the code under test yet (the request still waits for EOF): the status the
+                    // process itself wrote into its marker just before it ended
+                    None => match std::fs::read_to_string(marker(*r)).ok().as_deref().map(str::trim) {
+                        Some("0") => Sx::bool(true),
+                        Some("1") => Sx::bool(false),
+                        _ => Sx::n(2u32),
+                    },
                 },
             ]),
             Ev::DropRunning(r) => l1("drop_running", *r),
+            Ev::Done(r) => l1("done", *r),
             Ev::Other(s) => Sx::L(vec![Sx::sym("unexpected"), Sx::sym(s)]),
         }
     }
@@ -131,6 +147,15 @@ fn hook(ev: &'static str) {
         "receive" => {
             t.evs.push(Ev::Receive(r));
             t.phase.insert(r, Phase::Held);
+            if t.kind.get(&r).copied().unwrap_or(0) >= 4 {
+                // run_input_output: acquire and spawn of /bin/sh happen in the same poll, nothing of ours in between
+                t.evs.push(Ev::Start(r));
+                t.phase.insert(r, Phase::Running);
+                t.children += 1;
+                if t.children > t.max_children {
+                    t.max_children = t.children;
+                }
+            }
         }
         "cancel" => {
             t.evs.push(Ev::Cancel(r));
@@ -167,7 +192,7 @@ fn hook(ev: &'static str) {
                             t.evs.push(Ev::Other("token_released_while_process_runs"));
                         }
                         t.evs.push(Ev::Exit(r, None));
-                        t.phase.insert(r, Phase::Done);
+                        t.phase.insert(r, Phase::Draining);
                         t.children -= 1;
                     }
                 }
@@ -191,6 +216,7 @@ fn started(r: u64) {
 
 fn exit_status(r: u64, ok: bool) {
     with(|t| {
+        let declared = std::fs::read_to_string(marker(r)).ok().map(|s| s.trim().to_string());
         for e in t.evs.iter_mut().rev() {
             if let Ev::Exit(x, st) = e {
                 if *x == r && st.is_none() {
@@ -199,8 +225,82 @@ fn exit_status(r: u64, ok: bool) {
                 }
             }
         }
+        match declared.as_deref() {
+            Some("0") if !ok => t.evs.push(Ev::Other("exit_status_mismatch")),
+            Some("1") if ok => t.evs.push(Ev::Other("exit_status_mismatch")),
+            _ => {}
+        }
     })
 }
+
+/// The request is over (its future completed, or it is being dropped after its process has exited).
+fn done(r: u64) {
+    with(|t| {
+        if t.phase.get(&r) == Some(&Phase::Draining) {
+            t.evs.push(Ev::Done(r));
+            t.phase.insert(r, Phase::Done);
+        }
+    })
+}
+
+fn phase_of(r: u64) -> Option<Phase> {
+    with(|t| t.phase.get(&r).copied())
+}
+
+/// Kill what the process of request r left behind (it wrote that pid next to its marker).
+fn kill_grandchild(r: u64) {
+    if let Ok(s) = std::fs::read_to_string(format!("{}.gc", marker(r))) {
+        if let Ok(pid) = s.trim().parse::<i32>() {
+            if pid > 1 {
+                unsafe { libc::kill(pid, libc::SIGKILL) };
+            }
+        }
+    }
+}
+
+fn kill_all_grandchildren() {
+    if let Ok(rd) = std::fs::read_dir(marker_dir()) {
+        for e in rd.flatten() {
+            if e.file_name().to_string_lossy().ends_with(".gc") {
+                if let Ok(s) = std::fs::read_to_string(e.path()) {
+                    if let Ok(pid) = s.trim().parse::<i32>() {
+                        if pid > 1 {
+                            unsafe { libc::kill(pid, libc::SIGKILL) };
+                        }
+                    }
+                }
+            }
+        }
+    }
+}
+
+static LATE_RELEASES: std::sync::atomic::AtomicU64 = std::sync::atomic::AtomicU64::new(0);
+
+/// How long after the compiler PROCESS has ended (its marker exists) the token may take to be back.  The real
+/// path is SIGCHLD -> reaper -> `Child::wait` returns -> drop: milliseconds.  Once exceeded in this process,
+/// later cases do not wait that long again.
+fn release_bound() -> Duration {
+    Duration::from_millis(if LATE_RELEASES.load(Ordering::SeqCst) > 0 { 300 } else { 4000 })
+}
+
+fn process_script(r: u64, kind: u64, dur_ms: u64) -> String {
+    let m = marker(r);
+    let pre = format!("sleep {}.{:03}", dur_ms / 1000, dur_ms % 1000);
+    match kind {
+        1 => format!("{pre}; echo 0 > {m}; exit 0"),
+        2 => format!("{pre}; echo 1 > {m}; exit 3"),
+        // something the compiler started outlives it and keeps its stdout / stderr
+        4 => format!("{pre}; sleep 20 & echo $! > {m}.gc; echo 0 > {m}; exit 0"),
+        5 => format!("{pre}; sleep 20 & echo $! > {m}.gc; echo compiler error >&2; echo 1 > {m}; exit 1"),
+        // more output than the pipes buffer, on both
+        6 => format!(
+            "{pre}; head -c 300000 /dev/zero | tr '\\0' x; head -c 300000 /dev/zero | tr '\\0' y >&2; echo 0 > {m}; exit 0"
+        ),
+        7 => format!("{pre}; echo 0 > {m}; exit 0"),
+        _ => format!("{pre}; echo 1 > {m}; kill -9 $$"),
+    }
+}
+
 
 /// The helper thread has nothing left to do (by the recorded events): no token in its hands, and either
 /// nobody queued or every token is out.
@@ -231,7 +331,7 @@ enum Outcome {
 
 type Fut = Pin<Box<dyn Future<Output = Outcome> + Send>>;
 
-fn work(client: Client, r: u64, kind: u64, dur_ms: u64, hold: bool) -> Fut {
+fn work(client: Client, r: u64, kind: u64, dur_ms: u64, hold: bool, watch: bool) -> Fut {
     Box::pin(async move {
         if kind == 0 {
             match client.acquire().await {
@@ -246,20 +346,13 @@ fn work(client: Client, r: u64, kind: u64, dur_ms: u64, hold: bool) -> Fut {
                 }
                 Err(_) => Outcome::AcquireErr,
             }
-        } else {
+        } else if kind <= 3 {
             let prog = if kind == 3 { "/nonexistent/verif-c16-no-such-compiler" } else { "/bin/sh" };
             let mut cmd = AsyncCommand::new(prog, client);
             // the process leaves a marker just before it ends: a token given up by `wait` while the marker is
             // missing was given up while the process was still running
-            let script = format!(
-                "sleep {}.{:03}; : > {}; exit {}",
-                dur_ms / 1000,
-                dur_ms % 1000,
-                marker(r),
-                if kind == 1 { 0 } else { 3 }
-            );
             cmd.arg("-c")
-                .arg(script)
+                .arg(process_script(r, kind, dur_ms))
                 .stdin(Stdio::null())
                 .stdout(Stdio::null())
                 .stderr(Stdio::null());
@@ -268,12 +361,60 @@ fn work(client: Client, r: u64, kind: u64, dur_ms: u64, hold: bool) -> Fut {
                     started(r);
                     let st = child.wait().await;
                     exit_status(r, st.map(|s| s.success()).unwrap_or(false));
+                    done(r);
                     Outcome::Exited
                 }
                 Err(_) => Outcome::SpawnErr,
             }
+        } else {
+            // the path every compiler / preprocessor run of the server takes: util::run_input_output
+            let mut cmd = AsyncCommand::new("/bin/sh", client);
+            cmd.arg("-c").arg(process_script(r, kind, dur_ms));
+            let input = if kind == 7 { Some(vec![b'z'; 300_000]) } else { Some(vec![]) };
+            if watch {
+                tokio::spawn(watch_release(r));
+            }
+            let res = run_input_output(cmd, input).await;
+            exit_status(r, res.is_ok());
+            done(r);
+            Outcome::Exited
         }
     })
+}
+
+/// mt leg: once the process of r has ended, its token must be back within `release_bound()` although a
+/// grandchild still holds the pipes; then the grandchild is killed so that the request itself can end.
+async fn watch_release(r: u64) {
+    let t0 = Instant::now();
+    let mut exited_at: Option<Instant> = None;
+    loop {
+        match phase_of(r) {
+            Some(Phase::Draining) => {
+                kill_grandchild(r);
+                return;
+            }
+            Some(Phase::Done) | Some(Phase::Orphan) | Some(Phase::Gone) => return,
+            _ => {}
+        }
+        if exited_at.is_none() && std::path::Path::new(&marker(r)).exists() {
+            exited_at = Some(Instant::now());
+        }
+        if let Some(t) = exited_at {
+            if t.elapsed() > release_bound() {
+                if phase_of(r) == Some(Phase::Running) {
+                    LATE_RELEASES.fetch_add(1, Ordering::SeqCst);
+                    with(|g| g.evs.push(Ev::Other("token_not_back_after_process_exit")));
+                }
+                kill_grandchild(r);
+                return;
+            }
+        }
+        if t0.elapsed() > Duration::from_secs(30) {
+            kill_grandchild(r);
+            return;
+        }
+        tokio::time::sleep(Duration::from_millis(2)).await;
+    }
 }
 
 /// Polls / drops the inner future with the thread-local request id set, so that the hook can name it.
@@ -336,6 +477,7 @@ enum Slot {
     Pending(Tagged),
     Holding(Acquired),
     Child(Tagged),
+    Draining(Tagged),
 }
 
 fn det(case: &Sx) -> Sx {
@@ -382,7 +524,7 @@ fn det(case: &Sx) -> Sx {
                             g.kind.insert(r, kind);
                             g.dropping.insert(r, false);
                         });
-                        let t = Tagged { r, fut: Some(work(client.clone(), r, kind, 15, false)) };
+                        let t = Tagged { r, fut: Some(work(client.clone(), r, kind, 15, false, false)) };
                         slots.insert(r, Slot::Pending(t));
                         poll_one(&mut slots, r, k).await;
                         poll_one(&mut slots, r, k).await;
@@ -400,17 +542,75 @@ fn det(case: &Sx) -> Sx {
                     }
                 }
                 "wait" => {
+                    // poll r's future until its process has ended and the token is back
                     let r = op.arg(1).u64();
                     if !matches!(slots.get(&r), Some(Slot::Child(_))) {
                         // not a running process: nothing to wait for
                     } else if let Some(Slot::Child(mut t)) = slots.remove(&r) {
                         let t0 = Instant::now();
+                        let mut exited_at: Option<Instant> = None;
+                        let mut ready = false;
                         loop {
                             if let Poll::Ready(_) = futures::poll!(&mut t) {
+                                ready = true;
+                                break;
+                            }
+                            if phase_of(r) != Some(Phase::Running) {
+                                break; // token released; the request still waits for EOF on the pipes
+                            }
+                            if exited_at.is_none() && std::path::Path::new(&marker(r)).exists() {
+                                exited_at = Some(Instant::now());
+                            }
+                            if exited_at.map(|t| t.elapsed() > release_bound()).unwrap_or(false) {
+                                LATE_RELEASES.fetch_add(1, Ordering::SeqCst);
+                                with(|g| g.evs.push(Ev::Other("token_not_back_after_process_exit")));
                                 break;
                             }
                             if t0.elapsed() > Duration::from_secs(30) {
                                 with(|g| g.evs.push(Ev::Other("wait_timeout")));
+                                break;
+                            }
+                            tokio::time::sleep(Duration::from_millis(1)).await;
+                        }
+                        let kind = with(|g| g.kind.get(&r).copied().unwrap_or(0));
+                        if ready {
+                            drop(t);
+                        } else if (kind == 4 || kind == 5) && phase_of(r) == Some(Phase::Draining) {
+                            slots.insert(r, Slot::Draining(t));
+                        } else {
+                            // nothing is supposed to hold the pipes (or the wait went wrong): let the request end
+                            kill_grandchild(r);
+                            let t1 = Instant::now();
+                            loop {
+                                if let Poll::Ready(_) = futures::poll!(&mut t) {
+                                    break;
+                                }
+                                if t1.elapsed() > Duration::from_secs(10) {
+                                    with(|g| g.evs.push(Ev::Other("finish_timeout")));
+                                    break;
+                                }
+                                tokio::time::sleep(Duration::from_millis(1)).await;
+                            }
+                            if phase_of(r) == Some(Phase::Running) {
+                                with(|g| g.dropping.insert(r, true));
+                            }
+                            drop(t);
+                        }
+                        settle(k);
+                    }
+                }
+                "finish" => {
+                    let r = op.arg(1).u64();
+                    if !matches!(slots.get(&r), Some(Slot::Draining(_))) {
+                    } else if let Some(Slot::Draining(mut t)) = slots.remove(&r) {
+                        kill_grandchild(r);
+                        let t1 = Instant::now();
+                        loop {
+                            if let Poll::Ready(_) = futures::poll!(&mut t) {
+                                break;
+                            }
+                            if t1.elapsed() > Duration::from_secs(10) {
+                                with(|g| g.evs.push(Ev::Other("finish_timeout")));
                                 break;
                             }
                             tokio::time::sleep(Duration::from_millis(1)).await;
@@ -428,6 +628,11 @@ fn det(case: &Sx) -> Sx {
                             with(|g| g.dropping.insert(r, true));
                             drop(t)
                         }
+                        Some(Slot::Draining(t)) => {
+                            kill_grandchild(r);
+                            done(r);
+                            drop(t)
+                        }
                         None => {}
                     }
                     settle(k);
@@ -435,7 +640,9 @@ fn det(case: &Sx) -> Sx {
                 _ => with(|g| g.evs.push(Ev::Other("bad_op"))),
             }
             let evs: Vec<Sx> = with(|g| {
-                let v = g.evs[mark..].iter().map(|e| e.sx()).collect();
+                // `done` moves no token and races with the helper thread's events: listed last (as the model does)
+                let (d, nd): (Vec<&Ev>, Vec<&Ev>) = g.evs[mark..].iter().partition(|e| matches!(e, Ev::Done(_)));
+                let v = nd.into_iter().chain(d).map(|e| e.sx()).collect();
                 mark = g.evs.len();
                 v
             });
@@ -443,9 +650,10 @@ fn det(case: &Sx) -> Sx {
             let nheld = slots.values().filter(|s| matches!(s, Slot::Holding(_))).count();
             let nrun = slots.values().filter(|s| matches!(s, Slot::Child(_))).count();
             let npend = slots.values().filter(|s| matches!(s, Slot::Pending(_))).count();
+            let ndrain = slots.values().filter(|s| matches!(s, Slot::Draining(_))).count();
             out.push(Sx::L(vec![
                 Sx::L(evs),
-                Sx::L(vec![Sx::n(avail), Sx::usize(nheld), Sx::usize(nrun), Sx::usize(npend)]),
+                Sx::L(vec![Sx::n(avail), Sx::usize(nheld), Sx::usize(nrun), Sx::usize(npend), Sx::usize(ndrain)]),
             ]));
         }
         // tidy up under the tags so that late events are attributed (they are not reported)
@@ -458,9 +666,11 @@ fn det(case: &Sx) -> Sx {
                     drop(t)
                 }
                 Some(Slot::Pending(t)) => drop(t),
+                Some(Slot::Draining(t)) => drop(t),
                 None => {}
             }
         }
+        kill_all_grandchildren();
         drop(client);
         out
     });
@@ -512,7 +722,7 @@ fn mt(case: &Sx) -> Sx {
             let client = client.clone();
             handles.push(tokio::spawn(async move {
                 tokio::time::sleep(Duration::from_micros(delay)).await;
-                let mut w = Tagged { r, fut: Some(work(client, r, kind, dur, true)) };
+                let mut w = Tagged { r, fut: Some(work(client, r, kind, dur, true, true)) };
                 if cancel > 0 {
                     tokio::select! {
                         biased; // the request is always issued before the cancellation timer is looked at
@@ -523,6 +733,11 @@ fn mt(case: &Sx) -> Sx {
                     }
                 } else {
                     (&mut w).await;
+                }
+                if phase_of(r) == Some(Phase::Draining) {
+                    // cancelled after the process has ended, while its pipes are still held
+                    kill_grandchild(r);
+                    done(r);
                 }
                 drop(w);
             }));
@@ -564,7 +779,7 @@ fn mt(case: &Sx) -> Sx {
             with(|g| {
                 g.kind.insert(r, 0);
             });
-            let t = Tagged { r, fut: Some(work(client.clone(), r, 0, 0, false)) };
+            let t = Tagged { r, fut: Some(work(client.clone(), r, 0, 0, false, false)) };
             match tokio::time::timeout(Duration::from_secs(if quiet { 15 } else { 1 }), t).await {
                 Ok(Outcome::Token(a)) => {
                     granted += 1;
@@ -581,7 +796,7 @@ fn mt(case: &Sx) -> Sx {
         let f2 = flag.clone();
         let cl = client.clone();
         let extra = tokio::spawn(async move {
-            let t = Tagged { r: xr, fut: Some(work(cl, xr, 0, 0, false)) };
+            let t = Tagged { r: xr, fut: Some(work(cl, xr, 0, 0, false, false)) };
             let o = t.await;
             f2.store(true, Ordering::SeqCst);
             o
@@ -605,6 +820,7 @@ fn mt(case: &Sx) -> Sx {
         (avail, granted, early, late, avail_end, stuck)
     });
     drop(rt);
+    kill_all_grandchildren();
     let (evs, maxc, orphaned) =
         with(|g| (g.evs.iter().map(|e| e.sx()).collect::<Vec<_>>(), g.max_children, g.orphaned));
     Sx::L(vec![
@@ -619,6 +835,172 @@ fn mt(case: &Sx) -> Sx {
         Sx::bool(res.5),
         Sx::n(orphaned),
     ])
+}
+
+// ------------------------------------------------------------------ how the server builds its client
+
+fn allowed_cpus() -> Vec<usize> {
+    let mut v = vec![];
+    unsafe {
+        let mut cur: libc::cpu_set_t = std::mem::zeroed();
+        if libc::sched_getaffinity(0, std::mem::size_of::<libc::cpu_set_t>(), &mut cur) == 0 {
+            for cpu in 0..libc::CPU_SETSIZE as usize {
+                if libc::CPU_ISSET(cpu, &cur) {
+                    v.push(cpu);
+                }
+            }
+        }
+    }
+    v
+}
+
+fn pin_to(cpus: &[usize]) {
+    unsafe {
+        let mut set: libc::cpu_set_t = std::mem::zeroed();
+        for c in cpus {
+            libc::CPU_SET(*c, &mut set);
+        }
+        libc::sched_setaffinity(0, std::mem::size_of::<libc::cpu_set_t>(), &set);
+    }
+}
+
+const MAKE_VARS: [&str; 3] = ["MAKEFLAGS", "CARGO_MAKEFLAGS", "MFLAGS"];
+
+/// `Client::new()` is what `server::start_server` calls (after `daemonize()` ran `discard_inherited_jobserver`).
+fn env_leg(case: &Sx, original: &[usize]) -> Sx {
+    reset();
+    let ncpus = (case.arg(0).u64() as usize).clamp(1, original.len().max(1));
+    let shape = case.arg(1).tag();
+    let arg = case.arg(1).arg(1).u64();
+    let burst = case.arg(2).u64() as usize;
+    let discard = case.arg(3).u64() != 0;
+    for v in MAKE_VARS {
+        std::env::remove_var(v);
+    }
+    pin_to(&original[..ncpus.min(original.len())]);
+    let var = MAKE_VARS[(arg % 3) as usize];
+    let mut fifo_keep: Option<std::fs::File> = None;
+    let fifo_path = format!("{}/make-{}.fifo", marker_dir(), CASE_NO.load(Ordering::SeqCst));
+    let mut fds: Option<(i32, i32)> = None;
+    match shape.as_str() {
+        "fifo" => {
+            use std::io::Write;
+            use std::os::unix::fs::OpenOptionsExt;
+            let c = std::ffi::CString::new(fifo_path.clone()).unwrap();
+            unsafe { libc::mkfifo(c.as_ptr(), 0o600) };
+            if let Ok(mut f) = std::fs::OpenOptions::new()
+                .read(true)
+                .write(true)
+                .custom_flags(libc::O_NONBLOCK)
+                .open(&fifo_path)
+            {
+                let _ = f.write_all(&vec![b'+'; arg as usize]);
+                fifo_keep = Some(f);
+            }
+            std::env::set_var(var, format!(" -j{} --jobserver-auth=fifo:{}", arg + 1, fifo_path));
+        }
+        "fds" => {
+            let mut p = [0i32; 2];
+            if unsafe { libc::pipe(p.as_mut_ptr()) } == 0 {
+                let tokens = [b'+'; 8];
+                unsafe { libc::write(p[1], tokens.as_ptr() as *const libc::c_void, tokens.len()) };
+                std::env::set_var(var, format!(" -j9 --jobserver-auth={},{}", p[0], p[1]));
+                if arg == 0 {
+                    // the descriptors named by the flags are not open in this process
+                    unsafe {
+                        libc::close(p[0]);
+                        libc::close(p[1]);
+                    }
+                } else {
+                    fds = Some((p[0], p[1]));
+                }
+            }
+        }
+        "garbage" => {
+            let g = [
+                " -j --jobserver-auth=bogus:xyz -- FOO=bar",
+                " -j4 --jobserver-fds=abc,def",
+                "w -j8",
+                " --jobserver-auth=fifo:/nonexistent/c16/no-such-fifo",
+            ];
+            std::env::set_var(var, g[(arg as usize) % g.len()]);
+        }
+        _ => {}
+    }
+    if discard {
+        // what daemonize() does before the server builds its client
+        // (it panics on `--jobserver-fds=abc,def`: the real server then does not come up at all; not C16's business)
+        let _ = vh::catch(|| unsafe { sccache::verif_hooks::jobserver::discard_inherited_jobserver() });
+        if fds.is_some() {
+            fds = None; // closed by the call above
+        }
+    }
+    let seen = sccache::util::num_cpus();
+    let rt = tokio::runtime::Builder::new_current_thread().enable_all().build().unwrap();
+    let res = vh::catch(|| {
+        rt.block_on(async {
+            let client = Client::new();
+            let limited = !client.verif_unlimited();
+            let pool = if limited { client.verif_available().map(|n| n as u64).unwrap_or(9999) } else { 0 };
+            let want = burst.min(seen);
+            let mut futs: Vec<Option<Pin<Box<dyn Future<Output = Option<Acquired>>>>>> = vec![];
+            for _ in 0..burst {
+                let c = client.clone();
+                futs.push(Some(Box::pin(async move { c.acquire().await.ok() })));
+            }
+            let mut got: Vec<Acquired> = vec![];
+            let t0 = Instant::now();
+            let mut full_at: Option<Instant> = None;
+            loop {
+                for f in futs.iter_mut() {
+                    if let Some(fut) = f {
+                        if let Poll::Ready(a) = futures::poll!(fut.as_mut()) {
+                            if let Some(a) = a {
+                                got.push(a);
+                            }
+                            *f = None;
+                        }
+                    }
+                }
+                if got.len() >= want && full_at.is_none() {
+                    full_at = Some(Instant::now());
+                }
+                // once as many as the CPU count hold a token, watch a little longer for one too many
+                if full_at.map(|t| t.elapsed() > Duration::from_millis(40)).unwrap_or(false) {
+                    break;
+                }
+                if t0.elapsed() > Duration::from_secs(10) {
+                    break;
+                }
+                tokio::time::sleep(Duration::from_millis(1)).await;
+            }
+            let granted = got.len() as u64;
+            let empty = got.iter().filter(|a| !a.verif_has_token()).count() as u64;
+            drop(got);
+            drop(futs);
+            drop(client);
+            (limited, pool, granted, empty)
+        })
+    });
+    drop(rt);
+    for v in MAKE_VARS {
+        std::env::remove_var(v);
+    }
+    if let Some((r, w)) = fds {
+        unsafe {
+            libc::close(r);
+            libc::close(w);
+        }
+    }
+    drop(fifo_keep);
+    let _ = std::fs::remove_file(&fifo_path);
+    pin_to(original);
+    match res {
+        Ok((limited, pool, granted, empty)) => {
+            Sx::L(vec![Sx::bool(limited), Sx::n(pool), Sx::n(granted), Sx::n(empty)])
+        }
+        Err(m) => Sx::L(vec![Sx::sym("panic"), Sx::B(m.into_bytes())]),
+    }
 }
 
 struct Cleanup;
@@ -643,9 +1025,14 @@ fn main() {
         }
     }
     let _cleanup = Cleanup;
+    let original = allowed_cpus();
     vh::run_lines(|case| match leg.as_str() {
         "det" => det(case),
         "mt" => mt(case),
+        "env" => {
+            vh::quiet_panics();
+            env_leg(case, &original)
+        }
         // the token count `Client::new()` would use in this process' CPU set (server.rs: Client::new())
         "ncpus" => Sx::L(vec![Sx::sym("ncpus"), Sx::usize(sccache::util::num_cpus())]),
         _ => Sx::L(vec![Sx::sym("unknown_leg")]),
